@@ -357,3 +357,52 @@ def capture_types(F, body, names, depth=0):
         elif par.kind == "Closure" and depth < 4:
             out.update(capture_types(F, par, [nm], depth + 1))
     return out
+
+
+def producers(body, du, op, depth=0, seen=None):
+    """what computes an operand, following only plain copies, casts, arithmetic and references (no calls, no
+    out-argument aliasing): [("call", callee) | ("field", (adt, name)) | ("const", c) | ("param", local) | ("other", kind)]"""
+    from .facts import callee_of as _co, callee_decl as _cd, norm as _norm, place_fields as _pf
+    seen = seen if seen is not None else set()
+    out = []
+    if "c" in op:
+        return [("const", op["c"].get("int", op["c"].get("v")))]
+    pl = op.get("mv") or op.get("cp")
+    if pl is None:
+        return [("other", "?")]
+    fs = [(_norm(a) if a else None, n) for a, n in _pf(pl)]
+    if fs and fs[-1][0] is not None and not fs[-1][0].startswith("("):
+        return [("field", fs[-1])]
+    l = pl["l"]     # tuple projections (the `.0` of checked arithmetic) are looked through
+    if l in seen or depth > 12:
+        return []
+    seen.add(l)
+    if 1 <= l <= body.argc:
+        out.append(("param", l))
+    for d in du.defs.get(l, []):
+        if d[0] == "assign":
+            rv = d[3]["rv"]
+            if d[3]["place"]["p"]:
+                continue
+            if rv["k"] in ("use", "cast", "unop"):
+                out += producers(body, du, rv["a"], depth + 1, seen)
+            elif rv["k"] == "binop":
+                out += producers(body, du, rv["a"], depth + 1, seen) + producers(body, du, rv["b"], depth + 1, seen)
+            elif rv["k"] == "ref" or rv["k"] == "discr":
+                fs2 = [(_norm(a) if a else None, n) for a, n in _pf(rv["p"])]
+                out += [("field", fs2[-1])] if fs2 else producers(body, du, {"cp": {"l": rv["p"]["l"], "p": []}}, depth + 1, seen)
+            elif rv["k"] == "agg":
+                for o in rv.get("ops", []):
+                    out += producers(body, du, o, depth + 1, seen)
+            else:
+                out.append(("other", rv["k"]))
+        elif d[0] == "call":
+            c = _co(d[2]) or _cd(d[2]) or ""
+            last = c.rsplit("::", 1)[-1]
+            if last in ("clone", "into", "from", "deref", "to_owned", "min", "max", "wrapping_add", "checked_add", "saturating_add", "unwrap_or", "unwrap", "expect") and d[2]["args"]:
+                for a in d[2]["args"]:
+                    out += producers(body, du, a, depth + 1, seen)
+                out.append(("via", last))
+            else:
+                out.append(("call", c))
+    return out
